@@ -1,8 +1,5 @@
-CLAIM = ("Self-extractor scan: for every symbolic prefix up to the bound without method signature/marker (as the property words them), "
-         "every alignment against the 24-byte window and every short-read pattern of the source, the bytes delivered start exactly at "
-         "the first header; one decoy header after an SFX marker is skipped; read-based and seek-based skipping agree on a model FILE; "
-         "the scan limit is decided on a scaled constant.")
-ASSUMPTIONS = ["256 KiB limit scaled through the LHASA_VERIF hook (same source text)", "FILE/stdio replaced by a position/length model"]
+CLAIM = ("Same members from any stream kind and behind a self-extractor prefix: (scan.iter) ONE iteration of the real self-extractor scan loop from an ARBITRARY loop state (carried-over bytes, decoy-skip state, position; LHASA_VERIF_SFX_RESUME hook) equals a sequential scan of the window positions - by induction the scan equals the sequential scan for every prefix length, every alignment against the 24-byte window and every short-read pattern, up to the real 256 KiB limit; (read.*) after the scan the caller gets the buffered bytes then the source's bytes, in order, and the buffer is empty once the smallest header has been read; (skip.kinds, skip.seek) seek-based, read-fallback and callback-without-skip skipping leave the same observable state on a (position, length, seekable) model of FILE, for any 32-bit distance on the seek path; (main.cmd) the archive name '-' reads standard input.")
+ASSUMPTIONS = ['one (carried-over length, refill count) pair per harness: 10 pairs in the quick tier, all 260 in the thorough tier', 'FILE/stdio replaced by a position/length model; real FILE buffering outside', 'the header parser consumes at least 24 bytes for the first header (l01.*: length >= minimum)']
 U = ["lib/lha_input_stream.c"]
 def scan(pmax, calls, timeout, tier="both"):
     return dict(name="scan.p%d" % pmax, src="C16/scan.c", defines=["PMAX=%d" % pmax, "SRC_CALLS=%d" % calls, "LHASA_VERIF_MAX_SFX_HEADER_LEN=96", "memcpy=verif_memcpy", "memmove=verif_memmove", "memcmp=verif_memcmp"], unwind=13,
